@@ -223,12 +223,17 @@ impl FarmGen {
             0 => None,
             1 => Some(s),      // start == end
             2 => Some(s + 1),
+            // long farms: with a small budget the per-epoch rate is small and the part of the
+            // budget lost to rounding can exceed it
+            3 => Some(s + self.rng.gen_range(30..400)),
             _ => Some(s + self.rng.gen_range(2..12)),
         };
+        let long = end.map(|e| e > s + 20).unwrap_or(false);
         let amount = match self.rng.gen_range(0..8) {
             0 => 999,
             1 => 1000,
             2 => self.rng.gen_range(1000..1020), // emission rate may round to small values
+            3 | 4 if long => self.rng.gen_range(1000..9000),
             _ => log_uniform(&mut self.rng, 1000, (bal / 1000).max(1001).min(10u128.pow(24))),
         };
         self.n_explicit += 1;
